@@ -357,7 +357,7 @@ def check_backend(run, backend, prefix, thorough=False):
     return cands, P, code_det
 
 
-def corner_instance(hyps, neg_goal, P, tries=600, seed=7):
+def corner_instance(hyps, neg_goal, P, tries=120, seed=7):
     """ground-instance search for an undecided overflow / range assertion: a = origin, the other coordinates at the ends of ranges a
     fixed-width fast path may use (2^k - 1 for several k) with seeded sign patterns; every instance is decided by z3 (ground formula).
     Returns a point dict or None (nothing found is never a proof)"""
